@@ -141,6 +141,7 @@ type Store struct {
 	UFs   map[string]string
 	UFOrd []string
 	symBy map[string]*Term
+	fd    map[int64][]FDCase // case tables of finite-domain float terms (fd.go)
 }
 
 func NewStore() *Store {
@@ -384,7 +385,9 @@ func (s *Store) Ite(c, a, b *Term) *Term {
 			return s.And(c, a)
 		}
 	}
-	return s.mk(&Term{Op: OIte, Sort: a.Sort, Args: []*Term{c, a, b}})
+	r := s.mk(&Term{Op: OIte, Sort: a.Sort, Args: []*Term{c, a, b}})
+	s.fdNoteIte(r, c, a, b)
+	return r
 }
 
 // Eq is SMT "=" (identity: for FP, NaN = NaN and +0 != -0).
@@ -406,6 +409,9 @@ func (s *Store) Eq(a, b *Term) *Term {
 			}
 		}
 		return s.BoolC(a.U == b.U)
+	}
+	if r := s.fdPred2(a, b, s.Eq); r != nil {
+		return r
 	}
 	if a.Sort == Bool {
 		if a.IsConst() {
@@ -678,6 +684,9 @@ func (s *Store) fpBin(op Op, a, b *Term) *Term {
 			}
 		}
 	}
+	if r := s.fdMap2(a, b, func(x, y *Term) *Term { return s.fpBin(op, x, y) }); r != nil {
+		return r
+	}
 	// IEEE addition and multiplication are commutative (SMT-LIB has a single NaN): one operand order
 	if (op == OFPAdd || op == OFPMul) && a.ID > b.ID {
 		a, b = b, a
@@ -696,6 +705,9 @@ func (s *Store) FPNeg(a *Term) *Term {
 		}
 		return s.F64Bits(a.U ^ (1 << 63))
 	}
+	if r := s.FDMap(a, s.FPNeg); r != nil {
+		return r
+	}
 	return s.mk(&Term{Op: OFPNeg, Sort: a.Sort, Args: []*Term{a}})
 }
 func (s *Store) FPAbs(a *Term) *Term {
@@ -704,6 +716,9 @@ func (s *Store) FPAbs(a *Term) *Term {
 			return s.F32Bits(uint32(a.U) &^ 0x80000000)
 		}
 		return s.F64Bits(a.U &^ (1 << 63))
+	}
+	if r := s.FDMap(a, s.FPAbs); r != nil {
+		return r
 	}
 	return s.mk(&Term{Op: OFPAbs, Sort: a.Sort, Args: []*Term{a}})
 }
@@ -730,6 +745,9 @@ func (s *Store) fpCmp(op Op, a, b *Term) *Term {
 			return s.BoolC(x == y)
 		}
 	}
+	if r := s.fdPred2(a, b, func(x, y *Term) *Term { return s.fpCmp(op, x, y) }); r != nil {
+		return r
+	}
 	return s.mk(&Term{Op: op, Sort: Bool, Args: []*Term{a, b}})
 }
 func (s *Store) FPLt(a, b *Term) *Term { return s.fpCmp(OFPLt, a, b) }
@@ -740,11 +758,17 @@ func (s *Store) FPIsNaN(a *Term) *Term {
 	if a.IsConst() {
 		return s.BoolC(fpIsNaN(a))
 	}
+	if r := s.fdPred1(a, s.FPIsNaN); r != nil {
+		return r
+	}
 	return s.mk(&Term{Op: OFPIsNaN, Sort: Bool, Args: []*Term{a}})
 }
 func (s *Store) FPIsInf(a *Term) *Term {
 	if a.IsConst() {
 		return s.BoolC(math.IsInf(fval(a), 0))
+	}
+	if r := s.fdPred1(a, s.FPIsInf); r != nil {
+		return r
 	}
 	return s.mk(&Term{Op: OFPIsInf, Sort: Bool, Args: []*Term{a}})
 }
@@ -759,6 +783,9 @@ func (s *Store) FPConv(a *Term, to Sort) *Term {
 			return s.F32C(float32(a.F64Val()))
 		}
 		return s.F64C(float64(a.F32Val()))
+	}
+	if r := s.FDMap(a, func(x *Term) *Term { return s.FPConv(x, to) }); r != nil {
+		return r
 	}
 	return s.mk(&Term{Op: OFPToFP, Sort: to, Args: []*Term{a}})
 }
